@@ -22,7 +22,7 @@ UUIDS = ["123e4567-e89b-12d3-a456-426614174000", "00000000-0000-0000-0000-000000
 BLOBS = ["", "AA==", "aGVsbG8=", "++++/v79/A=="]  # the last one uses both characters that differ between the base64 alphabets
 
 _WARM = [
-    (Person, {"firstName": "a", "mood": None, "user_name_2": "u", "home-address": {"street": "s"}, "status": "active", "level": 1, "attrs": {"k": 1}, "addresses": [{"street": "t"}], "grid": [[{"street": "g", "zip-code": "z"}]]}),
+    (Person, {"firstName": "a", "mood": None, "user_name_2": "u", "home-address": {"street": "s"}, "status": "active", "level": 1, "attrs": {"k": 1}, "addresses": [{"street": "t"}], "grid": [[{"cell-id": "g", "zip-code": "z"}]]}),
     (Stamps, {"created": WHENS[0], "born": DAYS[0], "avatar": BLOBS[1], "blob": BLOBS[2], "score": 1.5, "active": True}),
     (Employee, {"id": 1, "boss": "b", "office": {"street": "s"}}),
     (Account, {"user_id_2": "r", "userId": "a", "user_id": "b", "User-Id": 3}),
@@ -172,7 +172,7 @@ def ob_person_grid(fn: str, rows: int, street: str, has_zip: bool) -> bool:
     post: _
     """
     doc = {"firstName": fn, "mood": "ok"}
-    cell = {"street": street}
+    cell = {"cell-id": street}
     if has_zip:
         cell["zip-code"] = fn
     if rows:
@@ -185,7 +185,7 @@ def tw_person_grid(fn: str, rows: int, street: str, has_zip: bool) -> bool:
     pre: len(fn) <= 1 and len(street) <= 1 and 0 <= rows <= 2
     post: _
     """
-    U(S({"firstName": fn, "mood": "ok", "grid": [[{"street": street}]]}, Person))
+    U(S({"firstName": fn, "mood": "ok", "grid": [[{"cell-id": street}]]}, Person))
     return False
 
 
